@@ -1,6 +1,6 @@
 (* Driver entry for the system model (C02, C12, C18, C03). *)
 From Coq Require Import List String Ascii Arith Bool ZArith.
-From PC Require Import Base.Sexp Comp.Syntax Comp.Compile Subst.VarSubst Sys.System Sys.Des Sys.DesSys Sys.SysWfPil Finish.Apply Run.RComp.
+From PC Require Import Base.Sexp Comp.Syntax Comp.Compile Subst.VarSubst Sys.System Sys.Des Sys.DesSys Sys.SysWfPil Sys.SysNames Finish.Apply Run.RComp.
 Import ListNotations.
 Local Open Scope string_scope.
 
@@ -25,7 +25,7 @@ Definition run_sys (req : sexp) : sexp :=
           | OK (lines, ctr') =>
               (* the name hypothesis of the system-level C09 / C06 theorems, evaluated on the loaded object *)
               let flags := match load_file fs incs 12 ctr base args "" "." with
-                           | OK r => [sB (names_okb 12 (fst r))]
+                           | OK r => [sB (names_okb 12 (fst r)); sB (names_ok2b 12 (fst r))]
                            | Err _ => [] end in
               sOk (Li [sN ctr'; sL s_pline lines; Li flags])
           | Err k => sErr k
